@@ -20,8 +20,10 @@ _Bool    nondet_bool(void);
  * obligation is vacuous (unsatisfiable assumptions or unreachable assertion). */
 #ifdef WITNESS
 #define V_REACH() __CPROVER_assert(0, "WITNESS reachability")
+#define V_COVER(name) __CPROVER_assert(0, "WITNESS " name)     /* additional branch that must be reachable */
 #else
 #define V_REACH() ((void)0)
+#define V_COVER(name) ((void)0)
 #endif
 
 /* arbitrary bytes */
